@@ -3,11 +3,18 @@ import Aiortc.Lemmas.CloseInv
 namespace Aiortc.Lemmas.Close
 open Aiortc.Model.Close
 
-/-- only `inflight`, `auto`, `waiters` differ -/
+theorem free_lt {s : State} {k : Nat} (h : s.free k = true) : k < s.tpts.length := by
+  unfold State.free at h
+  rcases Nat.lt_or_ge k s.tpts.length with h' | h'
+  · exact h'
+  · rw [List.getElem?_eq_none h'] at h; simp at h
+
+/-- only `inflight`, `auto`, `waiters`, `tset` differ -/
 theorem inv_scalar {s s' : State} (hI : Inv s) (h1 : s'.trxs = s.trxs) (h2 : s'.tpts = s.tpts) (h3 : s'.sctp = s.sctp)
     (h4 : s'.conns = s.conns) (h5 : s'.closed = s.closed) (h6 : s'.prog = s.prog) (h7 : s'.closeDone = s.closeDone)
     (h8 : s'.sigClosed = s.sigClosed) (h9 : s'.iceClosed = s.iceClosed) (h10 : s'.connClosed = s.connClosed)
-    (h11 : s'.listeners = s.listeners) (hw : s.closed = false → s'.waiters = 0) : Inv s' := by
+    (h11 : s'.listeners = s.listeners) (hw : s.closed = false → s'.waiters = 0) (h12 : s'.tset = s.tset := by rfl) :
+    Inv s' := by
   constructor
   · rw [h1]; exact hI.wfT
   · rw [h2]; exact hI.wfK
@@ -27,6 +34,15 @@ theorem inv_scalar {s s' : State} (hI : Inv s) (h1 : s'.trxs = s.trxs) (h2 : s'.
   · rw [h5, h2]; intro hc k t hk hu
     have := hI.refs hc k t hk hu
     simpa [State.refd, h1, h3] using this
+  · rw [h2]; exact hI.wfN
+  · rw [h2]; intro k t hk hn
+    have := hI.unref k t hk hn
+    simpa [State.refd, h1, h3] using this
+  · rw [h12, h2]; exact hI.tsetOk
+  · rw [h12]; exact hI.tsetNodup
+  · rw [h5, h2, h6]; intro hc k t hk hr
+    have hr' : s.refd k = true := by simpa [State.refd, h1, h3] using hr
+    exact hI.coverI hc k t hk hr'
 
 theorem inv_autoTrigger {s : State} (hI : Inv s) : Inv s.autoTrigger := by
   unfold State.autoTrigger
@@ -116,6 +132,12 @@ theorem inv_latch {s : State} (hI : Inv s) (hc : s.closed = false) (a : APc) :
   · intro _ sc hs
     exact Or.inl (mem_program_sctp hs)
   · intro h; simp at h
+  · exact hI.wfN
+  · exact hI.unref
+  · exact hI.tsetOk
+  · exact hI.tsetNodup
+  · intro _ k t ht hr
+    exact Or.inl (mem_program_tpt hr).2
 
 theorem inv_closeCall {s s' : State} {b : Bool} (hI : Inv s) (h : s.step (.closeCall b) = some s') : Inv s' := by
   simp only [State.step] at h
@@ -168,6 +190,15 @@ theorem trxStep_done {t t' : Trx} {a : TrxAct} (h : trxStep false t a = some t')
     · injection h with h; subst h
       exact ⟨id, id⟩
     · simp at h
+  | cancel w =>
+    simp only [trxStep] at h
+    split at h
+    · rename_i hs
+      injection h with h; subst h
+      have hq : ∀ r : Run, r.cancel.quiet = r.quiet := by
+        intro r; unfold Run.cancel; split <;> simp_all [Run.quiet]
+      cases w <;> simp only [Trx.get, Trx.set, rcvDone, Trx.sndQuiet, hq] <;> exact ⟨id, id⟩
+    · simp at h
 
 theorem trxStep_tpt {live : Bool} {t t' : Trx} {a : TrxAct} (h : trxStep live t a = some t') (ha : ∀ k, a ≠ .assign k) :
     t'.tpt = t.tpt := by
@@ -177,6 +208,11 @@ theorem trxStep_tpt {live : Bool} {t t' : Trx} {a : TrxAct} (h : trxStep live t 
     simp only [trxStep, Option.map_eq_some_iff] at h
     obtain ⟨r, -, rfl⟩ := h
     cases w <;> simp [Trx.set]
+  | cancel w =>
+    simp only [trxStep] at h
+    split at h
+    · injection h with h; subst h; cases w <;> simp [Trx.set]
+    · simp at h
   | sndStart | rcvStart | decoderStop | mkTrack =>
     simp only [trxStep] at h
     first
@@ -229,6 +265,20 @@ theorem refd_mono_set {s : State} {i : Nat} {t : Trx} {k j : Nat} (ht : s.trxs[i
     simp at hxk; exact absurd hxk hj
   · exact ⟨x, List.mem_iff_getElem?.mpr ⟨n, by simp [List.getElem?_set, hin, hn, hnx]⟩, hxk⟩
 
+theorem refd_setTrx_le {s : State} {i : Nat} {t' : Trx} {j : Nat} (h : (s.setTrx i t').refd j = true) :
+    s.refd j = true ∨ t'.tpt = j := by
+  simp only [State.refd, State.setTrx, Bool.or_eq_true] at h ⊢
+  rcases h with h | h
+  · rw [List.any_eq_true] at h
+    obtain ⟨x, hx, hxk⟩ := h
+    rcases List.mem_or_eq_of_mem_set hx with h1 | h1
+    · exact Or.inl (Or.inl (List.any_eq_true.mpr ⟨x, h1, hxk⟩))
+    · subst h1; exact Or.inr (by simpa using hxk)
+  · exact Or.inl (Or.inr h)
+
+theorem free_nstop {s : State} {k : Nat} {t : Tpt} (h : s.free k = true) (ht : s.tpts[k]? = some t) : t.nstop = 0 := by
+  unfold State.free at h; rw [ht] at h; simpa using h
+
 theorem inv_trx_assign {s s' : State} {i k : Nat} (hI : Inv s) (h : s.step (.trx i (.assign k)) = some s') : Inv s' := by
   simp only [State.step] at h
   split at h
@@ -256,7 +306,7 @@ theorem inv_trx_assign {s s' : State} {i k : Nat} (hI : Inv s) (h : s.step (.trx
           · intro ins hin
             have := hI.valid ins hin
             cases ins <;> simpa [Instr.valid, State.setTrx] using this
-          · exact ⟨forall_set hI.tptOk.1 hk, hI.tptOk.2⟩
+          · exact ⟨forall_set hI.tptOk.1 (free_lt hk), hI.tptOk.2⟩
           · intro hc'; simp [State.setTrx, hc] at hc'
           · intro hc'; simp [State.setTrx, hc] at hc'
           · intro hc'; simp [State.setTrx, hc] at hc'
@@ -268,6 +318,18 @@ theorem inv_trx_assign {s s' : State} {i k : Nat} (hI : Inv s) (h : s.step (.trx
               rw [hold] at hj; injection hj with hj; subst hj
               rw [hun] at hu; simp at hu
             · exact refd_mono_set ht hjo hr
+          · exact hI.wfN
+          · intro j tj hj hn
+            cases hrj : (s.setTrx i { t with tpt := k }).refd j with
+            | false => rfl
+            | true =>
+              rcases refd_setTrx_le hrj with h1 | h1
+              · have := hI.unref j tj hj hn; rw [h1] at this; simp at this
+              · simp at h1; subst h1
+                have := free_nstop hk hj; omega
+          · exact hI.tsetOk
+          · exact hI.tsetNodup
+          · intro hc'; simp [State.setTrx, hc] at hc'
         · simp at ht'
       · simp at h
     · simp at h
@@ -287,7 +349,7 @@ theorem inv_trx {s s' : State} {i : Nat} {a : TrxAct} (hI : Inv s) (h : s.step (
         obtain ⟨t', ht', rfl⟩ := h
         exact inv_trx_local hI ht ht' (by simp) (fun _ => by simpa using hc)
     · simp at h
-  | sndStart | rcvStart | first w | exit w | decoderStop =>
+  | sndStart | rcvStart | first w | exit w | decoderStop | cancel w =>
     simp only [State.step] at h
     split at h
     · rename_i t ht
@@ -318,31 +380,146 @@ theorem tptStep_done {t t' : Tpt} {a : TptAct} (h : tptStep false t a = some t')
     split at h
     · injection h with h; subst h; exact ⟨id, fun _ => by simp [Tpt.monQuiet]⟩
     · simp at h
-  | discard =>
+  | nstep =>
     simp only [tptStep] at h
-    split at h
-    · injection h with h; subst h; exact ⟨id, id⟩
-    · simp at h
+    repeat' split at h
+    all_goals (try (simp at h; done))
+    all_goals (injection h with h; subst h; exact ⟨id, id⟩)
 
 theorem tptStep_unstarted {live : Bool} {t t' : Tpt} {a : TptAct} (h : tptStep live t a = some t')
     (hu : t'.unstarted = false) : t.unstarted = false ∨ a = .iceStart ∨ a = .dtlsStart := by
   cases a with
   | iceStart => exact Or.inr (Or.inl rfl)
   | dtlsStart => exact Or.inr (Or.inr rfl)
-  | iceDone ok | dtlsUp | dtlsFail | pumpExit | monFirst | monExit | discard =>
+  | iceDone ok | dtlsUp | dtlsFail | pumpExit | monFirst | monExit | nstep =>
     left
+    simp only [tptStep] at h
+    repeat' split at h
+    all_goals (try (simp at h; done))
+    all_goals (injection h with h; subst h; simp_all [Tpt.unstarted])
+
+theorem tptStep_N {live : Bool} {t t' : Tpt} {a : TptAct} (hw : WfN t) (h : tptStep live t a = some t') (ha : a ≠ .nstep)
+    (hfree : a = .iceStart ∨ a = .dtlsStart → t.nstop = 0) (hz : live = true → t.iceStop = 0) :
+    WfN t' ∧ t'.nstop = t.nstop ∧ t'.inSet = t.inSet ∧ (t.ice = .closed → t'.ice = .closed) := by
+  obtain ⟨n1, n2, n3, n4, n5, n6⟩ := hw
+  have hun : t.unstarted = false → t.nstop = 0 := by
+    intro hu
+    rcases Nat.eq_zero_or_pos t.nstop with h0 | h0
+    · exact h0
+    · rw [n5 h0] at hu; simp at hu
+  cases a with
+  | nstep => exact absurd rfl ha
+  | iceStart =>
+    have h0 := hfree (Or.inl rfl)
+    simp only [tptStep] at h
+    split at h
+    · rename_i hg; simp at hg
+      have hi := hz hg.1.1
+      injection h with h; subst h
+      simp_all [WfN]
+    · simp at h
+  | dtlsStart =>
+    have h0 := hfree (Or.inr rfl)
+    simp only [tptStep] at h
+    split at h
+    · rename_i hg; simp at hg
+      injection h with h; subst h
+      simp_all [WfN]
+    · simp at h
+  | iceDone ok =>
+    simp only [tptStep] at h
+    split at h
+    · rename_i hg; simp at hg
+      have hi := hz hg.1
+      injection h with h; subst h
+      have : ¬ (2 ≤ t.nstop) := fun h2 => by have := n2 h2; rw [hg.2] at this; simp at this
+      refine ⟨⟨n1, fun h2 => absurd h2 this, n3, n4, ?_, ?_⟩, rfl, rfl, fun hc => by rw [hg.2] at hc; simp at hc⟩
+      · intro h1; simpa [Tpt.unstarted] using n5 h1
+      · intro h1; simp [hi] at h1
+    · simp at h
+  | dtlsUp =>
+    simp only [tptStep] at h
+    split at h
+    · rename_i hg; simp at hg
+      have h0 : t.nstop = 0 := hun (by simp [Tpt.unstarted, hg.1.2])
+      injection h with h; subst h
+      exact ⟨⟨by simp [h0], by simp [h0], by simp [h0], by simpa [h0] using n4, by simp [h0], n6⟩, rfl, rfl, fun hc => hc⟩
+    · simp at h
+  | dtlsFail =>
+    simp only [tptStep] at h
+    split at h
+    · rename_i hg; simp at hg
+      have h0 : t.nstop = 0 := hun (by simp [Tpt.unstarted, hg.2])
+      injection h with h; subst h
+      exact ⟨⟨by simp [h0], by simp [h0], by simp [h0], by simpa [h0] using n4, by simp [h0], n6⟩, rfl, rfl, fun hc => hc⟩
+    · simp at h
+  | pumpExit =>
     simp only [tptStep] at h
     split at h
     · rename_i hg
+      have h0 : t.nstop = 0 := hun (by simp [Tpt.unstarted, hg])
       injection h with h; subst h
-      simp_all [Tpt.unstarted]
+      exact ⟨⟨by simp [h0], by simp [h0], by simp [h0], by simpa [h0] using n4, by simp [h0], n6⟩, rfl, rfl, fun hc => hc⟩
+    · simp at h
+  | monFirst =>
+    simp only [tptStep] at h
+    split at h
+    · rename_i hg
+      have h0 : t.nstop = 0 := hun (by simp [Tpt.unstarted, hg])
+      injection h with h; subst h
+      exact ⟨⟨by simp [h0], by simp [h0], by simp [h0], by simpa [h0] using n4, by simp [h0], n6⟩, rfl, rfl, fun hc => hc⟩
+    · simp at h
+  | monExit =>
+    simp only [tptStep] at h
+    split at h
+    · rename_i hg; simp at hg
+      have h0 : t.nstop = 0 := hun (by simp [Tpt.unstarted, hg.1])
+      injection h with h; subst h
+      exact ⟨⟨by simp [h0], by simp [h0], by simp [h0], by simpa [h0] using n4, by simp [h0], n6⟩, rfl, rfl, fun hc => hc⟩
     · simp at h
 
+/-- the clean-up steps: each does to the transport what the position says -/
+theorem nstep_N {live : Bool} {t t' : Tpt} (hw : WfN t) (h : tptStep live t .nstep = some t') :
+    WfN t' ∧ 1 ≤ t'.nstop ∧ (t.ice = .closed → t'.ice = .closed)
+    ∧ ((t'.inSet = t.inSet) ∨ (t'.inSet = false ∧ t.inSet = true)) := by
+  obtain ⟨n1, n2, n3, n4, n5, n6⟩ := hw
+  simp only [tptStep] at h
+  split at h
+  · rename_i hu
+    have hu' : ∀ x : Tpt, x.pump = t.pump → x.monitor = t.monitor → x.dtls = t.dtls → x.unstarted = true := by
+      intro x a b c; simpa [Tpt.unstarted, a, b, c] using hu
+    repeat' split at h
+    all_goals (try (simp at h; done))
+    all_goals (injection h with h; subst h)
+    · rename_i h0
+      refine ⟨⟨by simp, by simp, by simp, ?_, fun _ => hu' _ rfl rfl rfl, n6⟩, by simp, fun hc => hc, Or.inl rfl⟩
+      simpa [h0] using n4
+    · rename_i h0 h1
+      refine ⟨⟨by simp, by simp, by simp, ?_, fun _ => hu' _ rfl rfl rfl, fun _ => rfl⟩, by simp, fun _ => rfl, Or.inl rfl⟩
+      simpa [h1] using n4
+    · rename_i h0 h1 h2
+      refine ⟨⟨by simp, fun _ => n2 (by omega), by simp, ?_, fun _ => hu' _ rfl rfl rfl, n6⟩, by simp, fun hc => hc, Or.inl rfl⟩
+      simpa [h2] using n4
+    · rename_i h0 h1 h2 h3
+      refine ⟨⟨by simp, fun _ => n2 (by omega), fun _ => n3 (by omega), by simp, fun _ => hu' _ rfl rfl rfl, n6⟩, by simp,
+        fun hc => hc, Or.inr ⟨rfl, ?_⟩⟩
+      cases hin : t.inSet with
+      | true => rfl
+      | false => have := n4.mp hin; omega
+  · simp at h
+
 theorem inv_tpt_local {s : State} {k : Nat} {t t' : Tpt} {a : TptAct} (hI : Inv s) (ht : s.tpts[k]? = some t)
-    (h : tptStep s.liveConn t a = some t') (hr : a = .iceStart ∨ a = .dtlsStart → s.refd k = true) :
-    Inv (s.setTpt k t') := by
+    (h : tptStep s.liveConn t a = some t') (hr : a = .iceStart ∨ a = .dtlsStart → s.refd k = true)
+    (ha : a ≠ .nstep := by simp) : Inv (s.setTpt k t') := by
   have hstops := tptStep_stops h
-  apply inv_setTpt hI ht
+  have hN := tptStep_N (hI.wfN k t ht) h ha
+    (fun hs => by
+      have hrk := hr hs
+      rcases Nat.eq_zero_or_pos t.nstop with h0 | h0
+      · exact h0
+      · have := hI.unref k t ht h0; rw [hrk] at this; simp at this)
+    (fun hl => (zero_of_openK hI ht (live_open hI hl)).2)
+  apply inv_setTpt hI ht (hn := hN.1) (hn2 := Or.inl hN.2.1) (hice := hN.2.2.2) (hin := hN.2.2.1)
   · apply tptStep_wf (hI.wfK k t ht) h
     intro hl; exact zero_of_openK hI ht (live_open hI hl)
   · intro hc; rw [hstops.1, hstops.2]; exact zero_of_openK hI ht hc
@@ -367,14 +544,35 @@ theorem inv_tpt {s s' : State} {k : Nat} {a : TptAct} (hI : Inv s) (h : s.step (
       obtain ⟨t', ht', rfl⟩ := h
       exact inv_autoTrigger (inv_tpt_local hI ht ht' (by simp))
     · simp at h
-  | discard =>
+  | nstep =>
     simp only [State.step] at h
     split at h
     · rename_i t ht
       split at h
-      · simp only [Option.map_eq_some_iff] at h
+      · rename_i hnr
+        simp only [Bool.not_eq_true'] at hnr
+        simp only [Option.map_eq_some_iff] at h
         obtain ⟨t', ht', rfl⟩ := h
-        exact inv_tpt_local hI ht ht' (by simp)
+        have hstops := tptStep_stops ht'
+        obtain ⟨hn, hn1, hice, hin⟩ := nstep_N (hI.wfN k t ht) ht'
+        have hwf := tptStep_wf (hI.wfK k t ht) ht' (fun hl => zero_of_openK hI ht (live_open hI hl))
+        have hun : t'.unstarted = false → t.unstarted = false ∨ s.refd k = true := fun hu =>
+          (tptStep_unstarted ht' hu).imp id (fun h => by rcases h with h | h <;> simp at h)
+        have key : ∀ ts', (ts' = s.tset ∧ t'.inSet = t.inSet ∨ ts' = s.tset.erase k ∧ t'.inSet = false) →
+            Inv { s.setTpt k t' with tset := ts' } := fun ts' hts =>
+          inv_setTpt' ts' hI ht hwf (fun hc => by rw [hstops.1, hstops.2]; exact zero_of_openK hI ht hc)
+            (fun hc => by rw [liveConn_false hI.conns hc] at ht'; exact (tptStep_done ht').1)
+            (fun hc => by rw [liveConn_false hI.conns hc] at ht'; exact (tptStep_done ht').2)
+            (fun _ => hun) hn (Or.inr (fun _ => hnr)) hice hts
+        unfold State.syncSet
+        split
+        · rename_i hi
+          rcases hin with h1 | h1
+          · exact key s.tset (Or.inl ⟨rfl, h1⟩)
+          · rw [h1.1] at hi; simp at hi
+        · rename_i hi
+          simp only [Bool.not_eq_true] at hi
+          exact key (s.tset.erase k) (Or.inr ⟨rfl, hi⟩)
       · simp at h
     · simp at h
   | iceStart | dtlsStart =>
@@ -418,7 +616,9 @@ theorem inv_config {s s' : State} (hI : Inv s) (hc : s.closed = false) (hc' : s'
     (hT : ∀ (i : Nat) (t : Trx), s'.trxs[i]? = some t → WfTrx t ∧ t.rcvStop = 0 ∧ t.sndStop = 0 ∧ t.tpt < s'.tpts.length)
     (hK : ∀ (k : Nat) (t : Tpt), s'.tpts[k]? = some t → WfTpt t ∧ t.dtlsStop = 0 ∧ t.iceStop = 0
             ∧ (t.unstarted = false → s'.refd k = true))
-    (hS : ∀ (sc : Sctp), s'.sctp = some sc → sc.stop = 0 ∧ sc.tpt < s'.tpts.length) : Inv s' := by
+    (hS : ∀ (sc : Sctp), s'.sctp = some sc → sc.stop = 0 ∧ sc.tpt < s'.tpts.length)
+    (hN : ∀ (k : Nat) (t : Tpt), s'.tpts[k]? = some t → WfN t ∧ (1 ≤ t.nstop → s'.refd k = false))
+    (hts : ∀ (k : Nat), k ∈ s'.tset ↔ ∃ t, s'.tpts[k]? = some t ∧ t.inSet = true) (hnd : s'.tset.Nodup) : Inv s' := by
   constructor
   · exact fun i t h => (hT i t h).1
   · exact fun k t h => (hK k t h).1
@@ -434,6 +634,25 @@ theorem inv_config {s s' : State} (hI : Inv s) (hc : s.closed = false) (hc' : s'
   · intro h; rw [hc'] at h; simp at h
   · intro h; rw [hc'] at h; simp at h
   · exact fun _ k t h => (hK k t h).2.2.2
+  · exact fun k t h => (hN k t h).1
+  · exact fun k t h => (hN k t h).2
+  · exact hts
+  · exact hnd
+  · intro h; rw [hc'] at h; simp at h
+
+/-- new references go to a free transport only: the transports under clean-up stay unreferenced -/
+theorem unref_grow {s s' : State} (hI : Inv s) {k : Nat} (hk : s.free k = true) (htp : s'.tpts = s.tpts)
+    (hle : ∀ j, s'.refd j = true → s.refd j = true ∨ j = k) :
+    ∀ (j : Nat) (t : Tpt), s'.tpts[j]? = some t → WfN t ∧ (1 ≤ t.nstop → s'.refd j = false) := by
+  intro j t hj
+  rw [htp] at hj
+  refine ⟨hI.wfN j t hj, fun hn => ?_⟩
+  cases hr : s'.refd j with
+  | false => rfl
+  | true =>
+    rcases hle j hr with h1 | h1
+    · have := hI.unref j t hj hn; rw [h1] at this; simp at this
+    · subst h1; have := free_nstop hk hj; omega
 
 theorem open_facts {s : State} (hI : Inv s) (hc : s.closed = false) :
     (∀ (i : Nat) (t : Trx), s.trxs[i]? = some t → WfTrx t ∧ t.rcvStop = 0 ∧ t.sndStop = 0 ∧ t.tpt < s.tpts.length)
@@ -454,7 +673,13 @@ theorem inv_addTpt {s s' : State} (hI : Inv s) (h : s.step .addTpt = some s') : 
     injection h with h; subst h
     obtain ⟨fT, fK, fS⟩ := open_facts hI hc
     obtain ⟨o1, o2, o3, -⟩ := hI.opn hc
-    refine inv_config hI hc hc rfl o1 o2 o3 ?_ ?_ ?_
+    have hlt : ∀ j, j ∈ s.tset → j < s.tpts.length := by
+      intro j hj
+      obtain ⟨t, ht, -⟩ := (hI.tsetOk j).mp hj
+      rcases Nat.lt_or_ge j s.tpts.length with h' | h'
+      · exact h'
+      · rw [List.getElem?_eq_none h'] at ht; simp at ht
+    refine inv_config hI hc hc rfl o1 o2 o3 ?_ ?_ ?_ ?_ ?_ ?_
     · intro i t ht
       obtain ⟨a, b, c, d⟩ := fT i t ht
       exact ⟨a, b, c, by simp; omega⟩
@@ -466,6 +691,30 @@ theorem inv_addTpt {s s' : State} (hI : Inv s) (h : s.step .addTpt = some s') : 
     · intro sc hs
       obtain ⟨a, b⟩ := fS sc hs
       exact ⟨a, by simp; omega⟩
+    · refine forall_append ?_ ?_
+      · intro k t hk
+        exact ⟨hI.wfN k t hk, fun hn => by simpa [State.refd] using hI.unref k t hk hn⟩
+      · exact ⟨wfN_init, fun hn => by simp at hn⟩
+    · intro j
+      simp only [List.mem_append, List.mem_singleton]
+      constructor
+      · rintro (hj | hj)
+        · obtain ⟨t, ht, hin⟩ := (hI.tsetOk j).mp hj
+          exact ⟨t, by rw [List.getElem?_append_left (hlt j hj)]; exact ht, hin⟩
+        · subst hj; exact ⟨{}, by simp, rfl⟩
+      · rintro ⟨t, ht, hin⟩
+        rcases Nat.lt_or_ge j s.tpts.length with h' | h'
+        · rw [List.getElem?_append_left h'] at ht
+          exact Or.inl ((hI.tsetOk j).mpr ⟨t, ht, hin⟩)
+        · right
+          rcases Nat.eq_or_lt_of_le h' with h'' | h''
+          · exact h''.symm
+          · rw [List.getElem?_eq_none (by simp; omega)] at ht; simp at ht
+    · rw [List.nodup_append]
+      refine ⟨hI.tsetNodup, by simp, ?_⟩
+      intro a ha b hb
+      simp at hb; subst hb
+      have := hlt a ha; omega
 
 theorem inv_addTrx {s s' : State} {k : Nat} (hI : Inv s) (h : s.step (.addTrx k) = some s') : Inv s' := by
   simp only [State.step] at h
@@ -476,14 +725,24 @@ theorem inv_addTrx {s s' : State} {k : Nat} (hI : Inv s) (h : s.step (.addTrx k)
     injection h with h; subst h
     obtain ⟨fT, fK, fS⟩ := open_facts hI hc
     obtain ⟨o1, o2, o3, -⟩ := hI.opn hc
-    refine inv_config hI hc hc rfl o1 o2 o3 ?_ ?_ ?_
-    · exact forall_append fT ⟨wfTrx_init k, rfl, rfl, hk⟩
+    refine inv_config hI hc hc rfl o1 o2 o3 ?_ ?_ ?_ ?_ ?_ ?_
+    · exact forall_append fT ⟨wfTrx_init k, rfl, rfl, free_lt hk⟩
     · intro j t hj
       obtain ⟨a, b, c, d⟩ := fK j t hj
       refine ⟨a, b, c, fun hu => refd_mono (d hu) ?_ ?_⟩
       · intro x hx; exact List.mem_append_left _ hx
       · intro sc hs; exact ⟨sc, hs, rfl⟩
     · exact fS
+    · refine unref_grow hI hk rfl ?_
+      intro j hj
+      simp only [State.refd, List.any_append, Bool.or_eq_true] at hj ⊢
+      rcases hj with (hj | hj) | hj
+      · exact Or.inl (Or.inl hj)
+      · right; have hj' : k = j := by simpa using hj
+        exact hj'.symm
+      · exact Or.inl (Or.inr hj)
+    · exact hI.tsetOk
+    · exact hI.tsetNodup
   · simp at h
 
 theorem inv_addSctp {s s' : State} {k : Nat} (hI : Inv s) (h : s.step (.addSctp k) = some s') : Inv s' := by
@@ -495,12 +754,19 @@ theorem inv_addSctp {s s' : State} {k : Nat} (hI : Inv s) (h : s.step (.addSctp 
     injection h with h; subst h
     obtain ⟨fT, fK, fS⟩ := open_facts hI hc
     obtain ⟨o1, o2, o3, -⟩ := hI.opn hc
-    refine inv_config hI hc hc rfl o1 o2 o3 fT ?_ ?_
+    refine inv_config hI hc hc rfl o1 o2 o3 fT ?_ ?_ ?_ hI.tsetOk hI.tsetNodup
     · intro j t hj
       obtain ⟨a, b, c, d⟩ := fK j t hj
       refine ⟨a, b, c, fun hu => refd_mono (d hu) (fun x hx => hx) ?_⟩
       intro sc hs; rw [hn] at hs; simp at hs
-    · intro sc hs; simp at hs; subst hs; exact ⟨rfl, hk⟩
+    · intro sc hs; simp at hs; subst hs; exact ⟨rfl, free_lt hk⟩
+    · refine unref_grow hI hk rfl ?_
+      intro j hj
+      simp only [State.refd, Bool.or_eq_true] at hj ⊢
+      rcases hj with hj | hj
+      · exact Or.inl (Or.inl hj)
+      · right; have hj' : k = j := by simpa using hj
+        exact hj'.symm
   · simp at h
 
 theorem inv_assignSctp {s s' : State} {k : Nat} (hI : Inv s) (h : s.step (.assignSctp k) = some s') : Inv s' := by
@@ -516,7 +782,15 @@ theorem inv_assignSctp {s s' : State} {k : Nat} (hI : Inv s) (h : s.step (.assig
         injection h with h; subst h
         obtain ⟨fT, fK, fS⟩ := open_facts hI hc
         obtain ⟨o1, o2, o3, -⟩ := hI.opn hc
-        refine inv_config hI hc hc rfl o1 o2 o3 fT ?_ ?_
+        refine inv_config hI hc hc rfl o1 o2 o3 fT ?_ ?_ ?_ hI.tsetOk hI.tsetNodup
+        rotate_left 2
+        · refine unref_grow hI hk rfl ?_
+          intro j hj
+          simp only [State.refd, Bool.or_eq_true] at hj ⊢
+          rcases hj with hj | hj
+          · exact Or.inl (Or.inl hj)
+          · right; have hj' : k = j := by simpa using hj
+            exact hj'.symm
         · intro j t hj
           obtain ⟨a, b, c, d⟩ := fK j t hj
           refine ⟨a, b, c, fun hu => ?_⟩
@@ -530,7 +804,7 @@ theorem inv_assignSctp {s s' : State} {k : Nat} (hI : Inv s) (h : s.step (.assig
             rw [hold] at hj; injection hj with hj; subst hj
             rw [hun] at hu; simp at hu
         · intro sc' hs'; simp at hs'; subst hs'
-          exact ⟨(fS sc hs).1, hk⟩
+          exact ⟨(fS sc hs).1, free_lt hk⟩
       · simp at h
     · simp at h
   · simp at h
@@ -555,6 +829,15 @@ theorem inv_conns {s : State} (hI : Inv s) (cs : List Conn)
   · intro hc k t hk hu
     have := hI.refs hc k t hk hu
     simpa [State.refd] using this
+  · exact hI.wfN
+  · intro k t hk hn
+    have := hI.unref k t hk hn
+    simpa [State.refd] using this
+  · exact hI.tsetOk
+  · exact hI.tsetNodup
+  · intro hc k t hk hr
+    have hr' : s.refd k = true := by simpa [State.refd] using hr
+    exact hI.coverI hc k t hk hr'
 
 theorem inv_step {s s' : State} {a : Action} (hI : Inv s) (h : s.step a = some s') : Inv s' := by
   cases a with
